@@ -4,11 +4,13 @@
 package main
 
 import (
+	"encoding/hex"
 	"encoding/json"
 	"fmt"
 	"math/rand"
 	"os"
 	"strings"
+	"unicode/utf8"
 
 	"github.com/smart-core-os/sc-golang/verifharness/lib"
 )
@@ -39,9 +41,12 @@ func (rn *runner) do(sc scenario, tie *lib.Tie) {
 		return
 	}
 	nontrivial := len(calls) > 1 || len(sc.collection()) > 0
-	key := fmt.Sprintf("%s|%d|%v|%s|%v", sc.RPC, len(sc.IDs), sc.Sizes, sc.Token, sc.Delete)
+	key := fmt.Sprintf("%s|%d|%v|%s|%v|%v", sc.RPC, len(sc.IDs), sc.Sizes, sc.Token, sc.Delete, sc.Mask)
 	rn.mon.Eval(key, nontrivial, sc.summary())
 	rn.mon.Count("class:" + sc.Class)
+	if sc.Mask != nil {
+		rn.mon.Count(fmt.Sprintf("read-mask:key-visible=%v,witness-visible=%v", sc.keyVisible(), sc.witVisible()))
+	}
 	sc.monitor(rn.mon, r.Variant, calls, full)
 	tie.Count("class:" + sc.Class)
 	tie.Count("rpc:" + sc.RPC)
@@ -79,7 +84,7 @@ func (rn *runner) flush() {
 	}
 	for _, p := range rn.pend {
 		for i, c := range p.calls {
-			key := fmt.Sprintf("%s|%d|%d|%s", p.sc.RPC, len(p.sc.IDs), c.Size, c.Tok)
+			key := fmt.Sprintf("%s|%d|%d|%s|%v", p.sc.RPC, len(p.sc.IDs), c.Size, c.Tok, p.sc.keyVisible())
 			in := map[string]any{"scenario": p.sc.summary(), "call": i, "size": c.Size, "token": c.Token, "model_request": rn.lines[p.first+i]}
 			p.tie.Record(key, true, in, ans[p.first+i], c.Out)
 		}
@@ -101,11 +106,14 @@ func main() {
 		"structured random paging scenarios from one PRNG: collection sizes 0-60/49,50,51/999-1001, page sizes {-5..0,1,2,3,7,50,1000,5000,random} fixed or varying per page, prefix-related and multi-byte ids, hostile tokens (bit flips, truncation, base64 of random bytes, tokens for deleted/absent keys, out-of-range indices); every List call compared with the Lean model; distinct = (rpc, |ids|, size, decoded token)")
 	rn.mon = res.Monitor("paging-property",
 		"per scenario, oracle = ids sorted bytewise (waste: reverse insertion order) filtered by the harness's own decoding of the starting token: no panic; negative size and malformed token answered by an error; otherwise no error, |page| <= min(size or 50, 1000), total_size = |items|, empty token reached within |items|+1 pages, concatenation = listing; non-trivial = non-empty collection or more than one page")
+	codecTie := res.Tie("token-codec", "K1",
+		"token encode/decode identity on the six key-token RPCs: a one-item collection whose key is an ARBITRARY byte string (22 edge cases: NUL, 1-4 byte runes, BOM, overlong forms, surrogates, > U+10FFFF, truncated sequences; random runes; random bytes); page 1 mints a token from the key, the harness decodes it with its own base64(std)+proto reader, call 2 uses it. Model: the key is a String (valid UTF-8) and the token carries it unchanged, or the bytes are not a String ('invalid': proto.Marshal refuses the token, the RPC answers Unknown); distinct = (rpc, bytes)")
 	if f.Driver != "" {
 		d, err := lib.StartDriver(f.Driver)
 		if err != nil {
 			rn.tie.Fail(err)
 			rn.small.Fail(err)
+			codecTie.Fail(err)
 		} else {
 			rn.drv = d
 			defer d.Close()
@@ -113,8 +121,10 @@ func main() {
 	} else {
 		rn.tie.Fail(fmt.Errorf("no driver given"))
 		rn.small.Fail(fmt.Errorf("no driver given"))
+		codecTie.Fail(fmt.Errorf("no driver given"))
 	}
 	rng := lib.NewRand(f.Seed)
+	rn.codec(rng, codecTie, f.N(40, 2000))
 	rn.smallExhaustive()
 	rn.flush()
 	rn.random(rng)
@@ -151,10 +161,36 @@ func (rn *runner) smallExhaustive() {
 			for _, s := range sizes {
 				for _, t := range keyToks {
 					rn.do(scenario{RPC: r.Name, IDs: ids, Sizes: []int32{s}, Token: t, Class: "small"}, rn.small)
+					// the same with a read mask that hides the key field
+					rn.do(scenario{RPC: r.Name, IDs: ids, Sizes: []int32{s}, Token: t, Mask: hideKey(r), Class: "small-masked"}, rn.small)
 				}
 			}
 		}
 	}
+}
+
+// hideKey is a valid read mask that does not mention the key field.
+func hideKey(r rpc) []string {
+	if r.Wit != "" {
+		return []string{r.Wit}
+	}
+	return []string{"dispensing"} // Consumable_Stock has no second string field
+}
+
+// genMask draws a read mask: none, key only, witness only (key hidden), both.
+func genMask(r *rand.Rand, rp rpc) []string {
+	switch r.Intn(8) {
+	case 0:
+		return []string{rp.Key}
+	case 1, 2:
+		return hideKey(rp)
+	case 3:
+		if rp.Wit != "" {
+			return []string{rp.Key, rp.Wit}
+		}
+		return []string{rp.Key}
+	}
+	return nil
 }
 
 func (rn *runner) random(r *rand.Rand) {
@@ -173,7 +209,7 @@ func (rn *runner) random(r *rand.Rand) {
 					if n > 900 && s > 0 && s < 3 && rp.Name != "electric.ListModes" && rp.Name != "waste.ListWasteRecords" {
 						continue // one-item pages over ~1000 items cost ~1 s per RPC; two RPC shapes are enough
 					}
-					rn.do(scenario{RPC: rp.Name, IDs: ids, Sizes: []int32{s}, Class: "enumerate"}, rn.tie)
+					rn.do(scenario{RPC: rp.Name, IDs: ids, Sizes: []int32{s}, Mask: genMask(r, rp), Class: "enumerate"}, rn.tie)
 				}
 			}
 		}
@@ -184,7 +220,7 @@ func (rn *runner) random(r *rand.Rand) {
 			if i%4 == 0 {
 				n = []int{49, 50, 51, 100, 150}[r.Intn(5)]
 			}
-			rn.do(scenario{RPC: rp.Name, IDs: genIDs(r, n), Sizes: []int32{genPageSize(r)}, Class: "enumerate"}, rn.tie)
+			rn.do(scenario{RPC: rp.Name, IDs: genIDs(r, n), Sizes: []int32{genPageSize(r)}, Mask: genMask(r, rp), Class: "enumerate"}, rn.tie)
 		}
 		for i, rp := range all {
 			n := big[(i+int(rn.f.Seed))%3]
@@ -202,7 +238,7 @@ func (rn *runner) random(r *rand.Rand) {
 		for j := 0; j < 1+r.Intn(5); j++ {
 			ss = append(ss, genPageSize(r)%70)
 		}
-		rn.do(scenario{RPC: rp.Name, IDs: genIDs(r, n), Sizes: ss, Class: "varying"}, rn.tie)
+		rn.do(scenario{RPC: rp.Name, IDs: genIDs(r, n), Sizes: ss, Mask: genMask(r, rp), Class: "varying"}, rn.tie)
 	}
 	// 3. negative sizes, on the first page or later in the chain
 	for i := 0; i < rn.f.N(150, 1500); i++ {
@@ -259,6 +295,7 @@ func (rn *runner) random(r *rand.Rand) {
 			sc.Token, cls = corruptToken(r, rp.Variant, valid, ids)
 			sc.Class = "token:" + cls
 		}
+		sc.Mask = genMask(r, rp)
 		if r.Intn(12) == 0 {
 			sc.Sizes = []int32{-1 - int32(r.Intn(5))}
 			sc.Class += "+negative"
@@ -273,6 +310,18 @@ func replay(f lib.Flags) int {
 		lib.Fatal(err)
 	}
 	b, _ := json.Marshal(rp.Input)
+	var cc codecCase
+	if err := json.Unmarshal(b, &cc); err == nil && cc.RPC != "" && cc.Key != "" {
+		out, pmsg := cc.run()
+		fmt.Printf("codec case %s key=%s -> %s %s\n", cc.RPC, cc.Key, out, pmsg)
+		kb, _ := hex.DecodeString(cc.Key)
+		if out == "panic" || (utf8.Valid(kb) && out == "invalid") {
+			fmt.Println("STILL FAILS C15/" + cc.RPC + "/codec: " + out)
+			return 1
+		}
+		fmt.Println("replay: property holds on this input now")
+		return 0
+	}
 	var sc scenario
 	if err := json.Unmarshal(b, &sc); err != nil || sc.RPC == "" || len(sc.Sizes) == 0 {
 		fmt.Println("replay: no concrete scenario in file (", rp.Kind, rp.Broken, ")")
